@@ -275,8 +275,111 @@ class Engine(ExprMixin, StmtMixin, CallMixin, SpecMixin):
             # an exception the contract does not allow
             self.oblige("SAFE", e.site, False, None, f"may raise {e.exc}")
 
+    # ------------------------------------------------------------------ frame condition at function exit
+    def effective_modifies(self):
+        """what a caller of this function may see changed. Declared `modifies`, else - for a function of rule shape, which is
+        only ever called through a dispatch loop - the modifies clause of the generic rule contract its callers use, else
+        nothing (the function is used as a pure callee)."""
+        c = self.contract
+        g = (c.ghost or {}).get("frame")
+        if g == "off":
+            return None
+        mods = list(c.modifies or [])
+        if self.qualname.endswith(".__init__"):
+            mods.append("self")  # the object under construction: every field is being initialised
+        keys = list((c.params or {}).keys())
+        generic = None
+        if keys[:2] == ["state", "silent"] and (c.params or {}).get("state") == "obj:StateInline":
+            generic = "<inline_rule>"
+        elif len(keys) == 4 and keys[0] == "state" and keys[3] == "silent" and (c.params or {}).get("state") == "obj:StateBlock":
+            generic = "<block_rule>"
+        if generic and generic in self.registry:
+            mods += [m for m in self.registry[generic].modifies if m not in mods]
+            if generic == "<inline_rule>":
+                mods += ["state.tokens", "state.tokens_meta", "state._prev_delimiters"]
+            else:
+                mods += ["state.tokens", "state.env"]
+        return mods
+
+    def frame_same(self, a, b):
+        """z3 Bool: the two values are the same; None when the model cannot compare them"""
+        if a is b:
+            return z3.BoolVal(True)
+        if isinstance(a, (VInt, VBool)) and isinstance(b, (VInt, VBool)):
+            return self.as_int(a) == self.as_int(b) if isinstance(a, VInt) or isinstance(b, VInt) else a.t == b.t
+        if isinstance(a, VAtom) and isinstance(b, VAtom):
+            return a.t == b.t
+        if isinstance(a, VStr) and isinstance(b, VStr):
+            return str_eq(a, b)
+        if isinstance(a, VNone) and isinstance(b, VNone):
+            return z3.BoolVal(True)
+        if isinstance(a, VOpt) and isinstance(b, VOpt):
+            inner = self.frame_same(a.some, b.some)
+            if inner is None:
+                return None
+            return z3.And(a.isnone == b.isnone, z3.Implies(z3.Not(a.isnone), inner))
+        if isinstance(a, (VObj, VList, VDict)) and isinstance(b, (VObj, VList, VDict)) and type(a) is type(b):
+            return z3.BoolVal(a.ref == b.ref)
+        return None
+
     def check_frame_exit(self, fr):
-        pass
+        """FRAME obligations (deductive frame condition): every field of an entry-state object that this path has written -
+        directly, through an inlined helper, or by the havoc of a callee's modifies clause - and that the (effective) modifies
+        clause does not list must hold its entry value again. Callers rely on exactly this when they keep what they know
+        about everything a callee's modifies clause does not name."""
+        if fr is not self.frames[0]:
+            return
+        mods = self.effective_modifies()
+        if mods is None:
+            return
+        roots = {v.ref: k for k, v in fr.entry.items() if isinstance(v, VObj)}
+        cls_of_ref = {v.ref: v.cls for v in fr.entry.values() if isinstance(v, VObj)}
+        for hv in list(self.heap0.values()) + list(self.heap.values()):
+            if isinstance(hv, VObj):
+                cls_of_ref.setdefault(hv.ref, hv.cls)
+
+        def covered(path):
+            if path.endswith(".__cache__"):
+                return True  # Ruler's chain memo: its value is determined by the rules (C11 RI), writing it is unobservable
+            return any(path == m or path.startswith(m + ".") or path.startswith(m + "[") for m in mods)
+
+        for (ref, name), val in list(self.heap.items()):
+            if "#" in ref or ref.split(".")[0] not in roots:
+                continue  # an object created during the call
+            if (ref, name) not in self.heap0:
+                try:
+                    self.get_field(VObj(ref, cls_of_ref.get(ref, "?")), name, old=True)
+                except Exception:  # noqa: BLE001
+                    continue
+            entry = self.heap0.get((ref, name))
+            if entry is None or entry is val:
+                continue
+            path = f"{ref}.{name}"
+            if covered(path):
+                continue
+            same = self.frame_same(val, entry)
+            if same is None:
+                self.assumption_log.add(f"frame of {path} not comparable in the heap model ({type(val).__name__})")
+                continue
+            self.oblige("FRAME", f"exit/{path}", same, None, f"{path} is written on this path, is not in the modifies clause, and must hold its entry value at exit")
+        # list / map payloads of entry objects mutated in place
+        for ref, p in list(self.payload.items()):
+            if "#" in ref or ref not in self.payload0 or p is self.payload0[ref]:
+                continue
+            if ref.split(".")[0] not in roots:
+                continue
+            if covered(ref):
+                continue
+            if any(("old(" + ref + "[") in e or ("old(" + ref + ")") in e for _, e in self.contract.ensures):
+                continue  # the contents are pinned element-wise by an explicit postcondition of the contract
+            p0 = self.payload0[ref]
+            if isinstance(p, IntListP) and isinstance(p0, IntListP):
+                same = z3.And(p.len == p0.len, p.arr == p0.arr) if not (p.len is p0.len and p.arr is p0.arr) else z3.BoolVal(True)
+            elif isinstance(p, IntMapP) and isinstance(p0, IntMapP):
+                same = z3.And(p.keys == p0.keys, p.vals == p0.vals) if not (p.keys is p0.keys and p.vals is p0.vals) else z3.BoolVal(True)
+            else:
+                continue
+            self.oblige("FRAME", f"exit/{ref}[]", same, None, f"the contents of {ref} are written on this path, are not in the modifies clause, and must be the entry contents at exit")
 
     def check_at(self, st, fr, what, val, index=None, node=None):
         """`at` clauses of the contract: assertions attached to store / call sites (GUARD obligations).
